@@ -35,7 +35,7 @@ fn quant_op() -> BoxedStrategy<QuantOp> {
         6 => quant_input().prop_map(QuantOp::Convert),
         3 => Just(QuantOp::ConvertSame),
         3 => (-0.02f32..0.02f32).prop_map(QuantOp::ConvertNudge),
-        2 => (0.0f32..10.0, prop_oneof![1e-4f32..0.03, -0.03f32..-1e-4], 2u8..40).prop_map(|(start, step, n)| QuantOp::Ramp { start, step, n }),
+        2 => (0.0f32..10.0, prop_oneof![1e-4f32..0.03, -0.03f32..-1e-4], prop_oneof![12 => 2u8..40, 1 => 250u8..=255]).prop_map(|(start, step, n)| QuantOp::Ramp { start, step, n }),
         2 => (0u8..=120, 0.0f32..1.3, proptest::collection::vec(-1.0f32..=1.0, 2..30)).prop_map(|(k, amp, offs)| QuantOp::Noise { k, amp, offs }),
     ]
     .boxed()
@@ -53,13 +53,27 @@ fn boundary_count() -> BoxedStrategy<u16> {
 /// motif: convert, a long burst of scale edits with no conversion in between, forbid the class of the note just
 /// returned, convert the same input again (caches keyed on an edit counter must not go stale)
 fn edit_burst_motif() -> BoxedStrategy<Vec<QuantOp>> {
-    (quant_input(), 0u8..12, boundary_count(), proptest::collection::vec(0u8..12, 0..3), prop_oneof![Just(QuantOp::ConvertSame), (-0.005f32..0.005).prop_map(QuantOp::ConvertNudge)])
-        .prop_map(|(v, note, n, extra, again)| vec![QuantOp::Convert(v), QuantOp::EditBurst { note, n }, QuantOp::ForbidLast(extra), again])
+    (
+        proptest::option::weighted(0.4, prop_oneof![Just(vec![0u8]), Just(vec![0u8, 11]), Just(vec![0u8, 1]), proptest::collection::vec(0u8..12, 1..4)]),
+        prop_oneof![2 => quant_input(), 1 => 9.95f32..10.3, 1 => -0.1f32..0.05],
+        prop_oneof![2 => 0u8..12, 1 => Just(0u8)],
+        prop_oneof![2 => boundary_count(), 1 => 1u16..4],
+        proptest::collection::vec(0u8..12, 0..3),
+        prop_oneof![Just(QuantOp::ConvertSame), (-0.005f32..0.005).prop_map(QuantOp::ConvertNudge), (-0.05f32..0.05).prop_map(QuantOp::ConvertNudge)],
+    )
+        .prop_map(|(pre, v, note, n, extra, again)| {
+            let mut ops = vec![];
+            if let Some(list) = pre {
+                ops.push(QuantOp::Forbid(list));
+            }
+            ops.extend([QuantOp::Convert(v), QuantOp::EditBurst { note, n }, QuantOp::ForbidLast(extra), again]);
+            ops
+        })
         .boxed()
 }
 
 pub fn quant_case() -> BoxedStrategy<QuantCase> {
-    (proptest::collection::vec(quant_op(), 1..80), prop_oneof![6 => Just(vec![]), 1 => edit_burst_motif()], any::<proptest::sample::Index>())
+    (proptest::collection::vec(quant_op(), 1..80), prop_oneof![4 => Just(vec![]), 1 => edit_burst_motif()], any::<proptest::sample::Index>())
         .prop_map(|(mut ops, motif, at)| {
             if !motif.is_empty() {
                 let pos = at.index(ops.len() + 1);
